@@ -122,10 +122,11 @@ CHECKS['C07'] = {
 }
 CHECKS['C06'] = {
     'grid': {'sets': ['c06'], 'bound': '5 table definitions (plain, NOT NULL, BOOLEAN, DEFAULT + NOT NULL with two patterns, join) x every sequence of up to 2 admitted lines x one non-admitted line at each position or all kinds at every position (also inside the joined file) x 5-16 statements each; 16 (definition, line) admission pairs (about 5300 cases)'},
-    'verus_units': ['engine', 'extract'],
-    'clause_prefixes': ['c06'],
+    'verus_units': ['engine', 'extract', 'follow'],
+    # follow mode: the reader hands every line on verbatim and keeps nothing of a line it has delivered (unit follow, clauses `next.*`)
+    'clause_prefixes': ['c06', 'next.'],
     'technique': 'contract-based deductive verification (Verus): frame postconditions on ExecutionEngine::execute_select / execute_aggregate / execute_aggregate_update extracted from /repo',
-    'claim': 'Proof that for a line whose extracted row has no non-NULL column (which includes every NOT NULL failure, see C01) the three per-line entry points return an empty output and leave the whole engine (DISTINCT memory, aggregation state, row counter) unchanged, for all tables, statements and lines. Consequently inserting or deleting such lines cannot change any later result of that engine.',
+    'claim': 'Proof that for a line whose extracted row has no non-NULL column (which includes every NOT NULL failure, see C01) the three per-line entry points return an empty output and leave the whole engine (DISTINCT memory, aggregation state, row counter) unchanged, for all tables, statements and lines. In follow mode the reader (FollowFileIterator::next, unit follow) delivers each completed line verbatim and clears its buffer, so a non-admitted line leaves nothing behind for the next one. Consequently inserting or deleting such lines cannot change any later result of that engine.',
     'note': 'Trusted: Iterator::any behind the vx_any stand-in (true after the predicate held for some element, false after it failed for every element); Row::any_result itself is under contract. TableDefinition::extract is abstract here (unit extract proves the NOT NULL cut). Loading of the joined file goes through the same execute_select, so it is covered by the same contract.',
     'level': 'proof',
     'explanation': 'admitted(row) := exists a non-NULL column; the contracts say !admitted ==> output empty and *final(self) == *old(self).',
@@ -197,10 +198,11 @@ CHECKS['C14'] = {
 
 CHECKS['C12'] = {
     'grid': {'sets': ['c12'], 'bound': 'every file content of up to 2 lines over a 4-line pool with LF / CRLF / no final terminator (109 contents) as one file, all ordered pairs of 21 of them and all ordered triples of 6 as several files; lines of 1 byte .. 3 MB; 2 x 3000 lines; invalid-UTF-8 lines in the input and in the joined file; SELECT input, COUNT(*) and an inner join whose joined file is the grid file (1247 cases)'},
-    'verus_units': ['executor', 'joinload', 'converter'],
-    'clause_prefixes': ['c12'],
+    'verus_units': ['executor', 'joinload', 'converter', 'engine'],
+    # "reaches the query": the line handed to ExecutionEngine::execute is the line the statement is evaluated on (unit engine)
+    'clause_prefixes': ['c12', 'select-line-output-is-the-limited-prefix-of-the-select-step', 'select-step-on-this-lines-row-only', 'update-folds-exactly-this-lines-row', 'batch-line-folds-and-shows-nothing', 'follow-line-shows-the-table-of-the-state-after-the-line'],
     'technique': 'contract-based deductive verification (Verus): FileExecutor::execute (both nested reader loops, labelled break) extracted from /repo and proved equal to a recursive run function sem_run; the property is proved as lemmas about sem_run',
-    'claim': 'Proof for all files (item sequences), engines and flag values that the lines handed to the query by FileExecutor::execute are exactly sem_run(history, files, flag): files in command-line order, lines in file order, each at most once, stopping only at an unreadable line (reported as Err), a failing query (Err), a reached LIMIT or an interrupt; lemma: when nothing stops the run, every line of every file reaches the query exactly once in order, so several files equal their concatenation; statistics.total_lines counts exactly those lines. The joined file: JoinedTableData::execute hands every line to its engine once, in file order (unit joinload), and the statement of that engine is SELECT * without WHERE / LIMIT / DISTINCT (unit converter, slice execute/statement).',
+    'claim': 'Proof for all files (item sequences), engines and flag values that the lines handed to the query by FileExecutor::execute are exactly sem_run(history, files, flag): files in command-line order, lines in file order, each at most once, stopping only at an unreadable line (reported as Err), a failing query (Err), a reached LIMIT or an interrupt; lemma: when nothing stops the run, every line of every file reaches the query exactly once in order, so several files equal their concatenation; statistics.total_lines counts exactly those lines. ExecutionEngine::execute evaluates the statement on exactly the line it is handed (unit engine: the SELECT step / the aggregate fold are functions of line@). The joined file: JoinedTableData::execute hands every line to its engine once, in file order (unit joinload), and the statement of that engine is SELECT * without WHERE / LIMIT / DISTINCT (unit converter, slice execute/statement).',
     'note': 'Trusted: BufRead::lines() yields the items of the file in order (stand-in VReader::lines, materialised: rule E4), std::mem::take, the engine as a state machine over its line history, statistics counters do not overflow within a run (vx_count_* stand-ins). The byte-level splitting of a file into lines (final line without newline, CRLF) is std::io::Lines, not verified. The loader of the joined file (JoinedTableData::execute) is covered by unit joinload in the same style (sem_load).',
     'level': 'proof',
     'explanation': 'code == sem_run is proved against the extracted text with loop invariants in forward style; lemma_every_line_of_every_file, lemma_interrupted_run_consumes_nothing and lemma_limit_reached_consumes_nothing are pure spec-level inductions.',
